@@ -325,10 +325,95 @@ def rule_chanorder(ctx):
         ctx.bad(rid, "from_render|dims-swap", "width/height of the stream are not swapped exactly for orientation >= 5", fn=f)
 
 
+def rule_orient_order(ctx):
+    """the frame origin is subtracted in unoriented coordinates: orientation is undone first, then the region is translated"""
+    from ..facts import callee, op_local, op_place
+    from ..mirutil import Defs, strip_generics
+    rid = "R-ORIENT-ORDER"
+    ctx.rule(rid, "in jxl-oxide, a requested region is mapped back through the orientation (Region::apply_orientation) before the "
+                  "keyframe's frame origin (x0, y0 - unoriented frame coordinates) is subtracted with Region::translate; no "
+                  "apply_orientation is applied to a region that was already translated by a frame origin. (Data-flow order of the two "
+                  "coordinate transforms; they commute only for orientation 1 or an origin of (0,0).)")
+    ox = ctx.prog.crate("jxl_oxide")
+    n = 0
+    for f in ox.fn_list:
+        calls = [(b, t) for b, t in f.calls() if callee(t)]
+        tr = [(b, t) for b, t in calls if strip_generics(callee(t)["fn"]).endswith("region::Region::translate")]
+        ao = [(b, t) for b, t in calls if strip_generics(callee(t)["fn"]).endswith("region::Region::apply_orientation")]
+        if not tr or not ao:
+            continue
+        defs = Defs(f)
+        ctx.seen(f)
+
+        def producer(l, depth=0):
+            """the call whose result (through moves/copies/refs) is local l"""
+            while l is not None and depth < 12:
+                depth += 1
+                d = defs.single(l)
+                if d is None:
+                    return None
+                if d[2] == "call":
+                    return d[3]
+                if d[2] == "assign":
+                    rv = d[3][2]
+                    if rv[0] == "use":
+                        pl = op_place(rv[1])
+                        l = pl[0] if pl is not None else None
+                        continue
+                    if rv[0] == "ref":
+                        l = rv[2][0]
+                        continue
+                return None
+            return None
+
+        def uses_frame_origin(t):
+            for a in t[2][1:]:
+                l = op_local(a)
+                seen = set()
+                while l is not None and l not in seen:
+                    seen.add(l)
+                    d = defs.single(l)
+                    if not d or d[2] != "assign":
+                        break
+                    rv = d[3][2]
+                    o = rv[2] if rv[0] in ("un", "cast") else (rv[1] if rv[0] == "use" else None)
+                    if o is None:
+                        break
+                    pl = op_place(o)
+                    if pl is None:
+                        break
+                    if any(isinstance(e, list) and e[0] == "." and e[2] in ("x0", "y0") for e in pl[1:]):
+                        return True
+                    l = pl[0] if len(pl) == 1 else None
+            return False
+
+        for b, t in tr:
+            if not uses_frame_origin(t):
+                continue
+            n += 1
+            src = producer(op_local(t[2][0]))
+            sc = strip_generics(callee(src)["fn"]) if src is not None and callee(src) else "?"
+            key = "translate-after-orientation:%s" % f.path
+            if sc.endswith("Region::apply_orientation"):
+                ctx.ok(rid, key, "translate(-x0, -y0) is applied to the result of apply_orientation", nontrivial=True, fn=f)
+            else:
+                ctx.bad(rid, key + "|wrong-order", "the frame origin is subtracted from a region that has not been mapped back through the "
+                        "orientation (its source is %s): for an oriented image whose keyframe has a non-zero origin the copy window is "
+                        "displaced" % sc.split("::")[-1], fn=f, pos=t[-2])
+        for b, t in ao:
+            src = producer(op_local(t[2][0]))
+            if src is not None and callee(src) and strip_generics(callee(src)["fn"]).endswith("Region::translate") and uses_frame_origin(src):
+                ctx.bad(rid, "orientation-after-translate:%s" % f.path, "apply_orientation is applied to a region already translated by the frame "
+                        "origin: the origin is in unoriented coordinates", fn=f, pos=t[-2])
+    ctx.counts[rid + ".sites"] = n
+    ctx.floor(rid + ".sites", 1)
+
+
 def main(pid, tier, repo=None):
     ctx = Ctx(pid, tier, configs=("workspace",), repo=repo)
     rule_orient(ctx)
     rule_chanorder(ctx)
+    rule_orient_order(ctx)
     ctx.not_decided("float->integer rounding and clamping; sample-by-sample equality between interleaved, planar and stream outputs")
     return ctx.finish(
         "The coordinate-map half of the property, for all image sizes and coordinates at once: the three hand-written copies of the "
